@@ -5,7 +5,7 @@
    top-level values of the extracted file share a name (definitions in different Coq
    files must have distinct names). *)
 From Coq Require Import Extraction ExtrOcamlBasic NArith ZArith QArith Qreduction List.
-From JLS Require Import Generated CrcDefs Spec StatsQ MrbModel TmapModel BitCopyModel FsrPackModel Format Decode WriteOnce DefsModel PyramidModel SigDef SpecFast TsModel TwrModel WmRaw WmCore WmTs WmFsr WriterModel SummQ.
+From JLS Require Import Generated CrcDefs Spec StatsQ MrbModel TmapModel BitCopyModel FsrPackModel Format Decode WriteOnce DefsModel PyramidModel SigDef SpecFast TsModel TwrModel WmRaw WmCore WmTs WmFsr WriterModel SummQ RepairRaw RepairModel.
 Extraction Language OCaml.
 Extraction "jlsmodel_ext"
   BinInt.Z.add BinInt.Z.opp BinInt.Z.of_N BinInt.Z.to_N BinNat.N.add BinNat.N.mul BinNat.N.of_nat BinNat.N.to_nat
@@ -45,4 +45,5 @@ Extraction "jlsmodel_ext"
   WriterModel.wm_run WriterModel.wm_run_full WriterModel.wm_step WriterModel.wm_step_rc
   WriterModel.wm_api_open WriterModel.wm_api_close WriterModel.wm_st_log WriterModel.wm_st_fault WriterModel.wm_find_sig
   SummQ.sq_levels SummQ.sq_level1 SummQ.sq_level_next SummQ.sq_summary1 SummQ.sq_summaryN
-  SummQ.sq_rd_statistics SummQ.sq_wr_blocks SummQ.sq_reconstruct.
+  SummQ.sq_rd_statistics SummQ.sq_wr_blocks SummQ.sq_reconstruct
+  RepairModel.rp_open RepairModel.rp_scan RepairModel.rp_apply_log RepairModel.rp_ends_with_end RepairModel.rp_links_forward.
